@@ -169,6 +169,9 @@ fn cfg_for(now: Instant, s3: bool, fold: bool) -> Cfg {
 
 pub fn run(ctx: &Ctx) -> Report {
     crate::env::set_log_mode(crate::env::LOG_OFF);
+    // this property's statement says nothing about the key provider: judge outcomes only
+    crate::e2e::set_judge_provider(false);
+    crate::e2e::set_judge_kind(false);
     let thorough = ctx.tier.thorough();
     let lit_path = admitted(false);
     let lit_query = admitted(true);
@@ -519,7 +522,7 @@ pub fn run(ctx: &Ctx) -> Report {
     Report {
         stats: st,
         rule: format!(
-            "requests signed by the independent reference signer from decoded data, then spelled on the wire: (A) every path of <= {} segments over {} segment values x trailing slash x {} spellings per segment x carrier x {{standard,S3}}; (B) every list of <= {} parameters over {} names x {} values, full product of {} spellings per element for <= 2 parameters and one element at a time above, x carrier; (C) 9 header sets x 6 Authorization parameter orders x 4 separators x 2 leads x 3 name cases x X-Amz-Date/Date x extras signed or not; (D) 6 bodies x 5 content types x {{default,S3,fold}} x carrier x 4 tokens (incl. the empty one) x 6 methods x URL parameters; (E) 9 clock offsets in [-15min,+15min] incl. +-1ns from the bounds x 4 server instants x 6 date renderings x carrier; (F) 1080 rich combinations. Every second case is preceded, on the same thread, by one of 7 refused requests (bad escapes half-way through a query key / value / path / form body, wrong signature, expired) so that acceptance is also checked from non-initial states. Oracle: accepted, provider asked exactly once with (access key, token, UTC date, region, service). states = distinct reference canonical requests; non-trivial = distinct (wire request, options, clock)",
+            "requests signed by the independent reference signer from decoded data, then spelled on the wire: (A) every path of <= {} segments over {} segment values x trailing slash x {} spellings per segment x carrier x {{standard,S3}}; (B) every list of <= {} parameters over {} names x {} values, full product of {} spellings per element for <= 2 parameters and one element at a time above, x carrier; (C) 9 header sets x 6 Authorization parameter orders x 4 separators x 2 leads x 3 name cases x X-Amz-Date/Date x extras signed or not; (D) 6 bodies x 5 content types x {{default,S3,fold}} x carrier x 4 tokens (incl. the empty one) x 6 methods x URL parameters; (E) 9 clock offsets in [-15min,+15min] incl. +-1ns from the bounds x 4 server instants x 6 date renderings x carrier; (F) 1080 rich combinations. Every second case is preceded, on the same thread, by one of 7 refused requests (bad escapes half-way through a query key / value / path / form body, wrong signature, expired) so that acceptance is also checked from non-initial states. Oracle: accepted (the provider bookkeeping is C03/C14's subject and is not judged here). states = distinct reference canonical requests; non-trivial = distinct (wire request, options, clock)",
             nseg, SEGS.len(), NSPELL, nq, QNAMES.len(), QVALUES.len(), NSPELL
         ),
         bounds: json!({"path_segments": nseg, "query_params": nq, "cases_enumerated": base}),
